@@ -225,7 +225,10 @@ Definition dp_fix_block2 (cfg : dp_cfg) (req : msg) : list opt :=
 
 (* ---- messages the library builds itself ---- *)
 Definition dp_empty (ty mid : Z) : msg := mkMsg ty 0 mid [] [] [].
-Definition dp_rst (req : msg) : dp_ev := EvTx false (dp_empty NR_RST (m_mid req)).
+(* coap_send_message_type_lkd(.., COAP_MESSAGE_RST): nothing when the message came in on a
+   multicast address (RFC 7252 8.1) *)
+Definition dp_rst (mc : bool) (req : msg) : list dp_ev :=
+  if mc then [] else [EvTx false (dp_empty NR_RST (m_mid req))].
 Definition dp_eack (req : msg) : dp_ev := EvTx false (dp_empty NR_ACK (m_mid req)).
 
 Definition dp_resp_type (req : msg) : Z := if m_type req =? NR_CON then NR_ACK else NR_NON.
@@ -377,6 +380,28 @@ Definition dp_finish (cfg : dp_cfg) (mc : bool) (req : msg) (rflags : option Z) 
 Definition dp_fail (cfg : dp_cfg) (mc : bool) (req : msg) (rflags : option Z) (code : Z) : list dp_ev :=
   dp_finish cfg mc req rflags false true (dp_error req code dp_fempty).
 
+(* the request handler proper and what becomes of its response.  [req] is the request PDU as
+   it is at that point (options already edited), [t] the selected resource. *)
+Definition dp_invoke (cfg : dp_cfg) (h : dp_hreq -> dp_hresp) (mc : bool) (req : msg)
+           (t : dp_target) : list dp_ev :=
+  let rf := Some (dp_target_flags t) in
+  let query := dp_query (m_opts req) in
+  let rty := dp_resp_type req in
+  match t with
+  | TWellKnown =>
+      dp_finish cfg mc req rf false false
+        (mkMsg rty 69 (m_mid req) (m_token req) [(DP_CONTENT_FORMAT, [40])] (c_wk cfg query))
+  | _ =>
+      let early := match t with TProxy _ _ => m_type req =? NR_CON | _ => false end in
+      let i := mkHreq (dp_target_rid t) (m_code req) req query in
+      let r := h i in
+      (if early then [dp_eack req] else []) ++ EvH i ::
+      (if dp_bad_class (hr_code r) then []
+       else if hr_code r =? 168 then [EvSkip]      (* 5.08 set by a handler: proxy business *)
+       else dp_finish cfg mc req rf early false
+              (mkMsg rty (hr_code r) (m_mid req) (m_token req) (hr_opts r) (hr_payload r)))
+  end.
+
 (* from the resource found to the end *)
 Definition dp_run (cfg : dp_cfg) (h : dp_hreq -> dp_hresp) (mc : bool) (req : msg)
            (t : dp_target) : list dp_ev :=
@@ -388,24 +413,7 @@ Definition dp_run (cfg : dp_cfg) (h : dp_hreq -> dp_hresp) (mc : bool) (req : ms
   else if negb (dp_has_method (dp_target_mask t) code) then dp_fail cfg mc req rf 133
   else if (code =? 5) && negb (dp_has DP_CONTENT_FORMAT (m_opts req)) then dp_fail cfg mc req rf 143
   else if c_mpr cfg && negb (nr_flag fl NR_F_HAS_MCAST) && mc then dp_fail cfg mc req rf 133
-  else
-    let query := dp_query (m_opts req) in
-    let base := mkMsg (dp_resp_type req) 0 (m_mid req) (m_token req) [] [] in
-    match t with
-    | TWellKnown =>
-        let body := c_wk cfg query in
-        dp_finish cfg mc req rf false false
-          (mkMsg (m_type base) 69 (m_mid req) (m_token req) [(DP_CONTENT_FORMAT, [40])] body)
-    | _ =>
-        let early := match t with TProxy _ _ => m_type req =? NR_CON | _ => false end in
-        let i := mkHreq (dp_target_rid t) code req query in
-        let r := h i in
-        (if early then [dp_eack req] else []) ++ EvH i ::
-        (if dp_bad_class (hr_code r) then []
-         else if hr_code r =? 168 then [EvSkip]      (* 5.08 set by a handler: proxy business *)
-         else dp_finish cfg mc req rf early false
-                (mkMsg (m_type base) (hr_code r) (m_mid req) (m_token req) (hr_opts r) (hr_payload r)))
-    end.
+  else dp_invoke cfg h mc req t.
 
 (* handle_request() *)
 Definition dp_handle_request (cfg : dp_cfg) (h : dp_hreq -> dp_hresp) (mc : bool) (crit : bool)
@@ -479,28 +487,27 @@ Definition dp_oscore_drop (cfg : dp_cfg) (code : Z) (opts : list opt) : bool :=
 Definition dp_serve (cfg : dp_cfg) (h : dp_hreq -> dp_hresp) (mc : bool) (req : msg) : list dp_ev :=
   let ty := m_type req in
   let code := m_code req in
-  if dp_bad_class code then (if ty =? NR_CON then [dp_rst req] else [])
+  if dp_bad_class code then (if ty =? NR_CON then dp_rst mc req else [])
   else
     let '(s, _) := dp_check_critical cfg req in
     let opts1 := dp_fix_block2 cfg req in
     let req1 := mkMsg ty code (m_mid req) (m_token req) opts1 (m_payload req) in
     if negb (cs_ok s) then
-      if ty =? NR_NON then [dp_rst req]
+      if ty =? NR_NON then dp_rst mc req
       else if ty =? NR_CON then
-        if dp_is_request code then [EvTx true (dp_error req1 130 (cs_flt s))] else [dp_rst req]
+        if dp_is_request code then [EvTx true (dp_error req1 130 (cs_flt s))] else dp_rst mc req
       else []
     else
       if dp_oscore_drop cfg code opts1 then []
       else if (ty =? NR_ACK) || (ty =? NR_RST) then []
       else if dp_is_request code then
-        if 8 <? len (m_token req) then [dp_rst req]      (* check_token_size, RFC 8974 2.2.2 *)
+        if 8 <? len (m_token req) then dp_rst mc req      (* check_token_size, RFC 8974 2.2.2 *)
         else dp_handle_request cfg h mc (cs_crit s) req1
       else if dp_is_response code then
         (if ty =? NR_CON then [dp_eack req] else [])      (* handle_response, no handler *)
-      else if code =? 0 then
-        (if mc then [] else [dp_rst req])                 (* ping *)
+      else if code =? 0 then dp_rst mc req                (* ping *)
       else
-        (if negb mc && (ty =? NR_CON) then [dp_rst req] else []).
+        (if ty =? NR_CON then dp_rst mc req else []).
 
 (* configurations and handler behaviours the model describes *)
 Definition dp_skipped (out : list dp_ev) : bool :=
